@@ -557,6 +557,16 @@ async fn apply(f: Fault, e: &mut Env, rng: &mut Rng, rep: &mut Report) -> Held {
             // more connections than the process has descriptors for: accept() must start failing, then everything is closed
             let port = if f == SrvDescriptorExhaustion { sp } else { cp };
             let t_exh = Instant::now();
+            // against the server: a dozen clients complete the transport handshake BEFORE the shortage and name their target
+            // DURING it (the server has their request and no descriptor to dial with)
+            let mut early: Vec<super::pipe::Pipe> = Vec::new();
+            if f == SrvDescriptorExhaustion {
+                for _ in 0..12 {
+                    if let Ok(p) = super::pipe::Pipe::connect(e.d.transport, sp).await {
+                        early.push(p);
+                    }
+                }
+            }
             let mut v = Vec::new();
             // (the kernel queues about 128 connections the process has not accepted; a connect beyond that waits for
             // retransmitted SYNs: three misses in a row end the loop)
@@ -577,6 +587,23 @@ async fn apply(f: Fault, e: &mut Env, rng: &mut Rng, rep: &mut Report) -> Held {
             }
             rep.mon("exhaustion_connections_opened", v.len() as u64);
             rep.mon(&format!("ms_opening_the_connections:{}", f.name()), t_exh.elapsed().as_millis() as u64);
+            if !early.is_empty() {
+                let dead = free_port();
+                let now = std::time::SystemTime::now().duration_since(std::time::UNIX_EPOCH).unwrap().as_secs();
+                let mut asked = 0u64;
+                for p in early.iter_mut() {
+                    let mut c = crate::peer::RefClient::new(&e.d.cfg, &refimpl::addr::Addr::V4([127, 0, 0, 1], dead), rng, now, crate::peer::ClientOpts::default());
+                    let w = c.write(b"a request that arrives while the server has no descriptor to spare", rng);
+                    if p.send(&w).await.is_ok() {
+                        asked += 1;
+                    }
+                }
+                rep.mon("requests_that_reached_the_server_during_its_descriptor_exhaustion", asked);
+                tokio::time::sleep(Duration::from_millis(500)).await;
+                for p in early.drain(..) {
+                    p.abort();
+                }
+            }
             if f == LocalDescriptorExhaustion {
                 // some of the applications behind those connections do ask for a flow while the client has no descriptor to
                 // spare: whatever the client tries to open for them (certificate file, socket) fails NOW - and only now
